@@ -68,6 +68,10 @@ type Prog struct {
 	// Inlined: call sites of novel helpers that were expanded before the analysis (inline.go)
 	Inlined      []inlineNote
 	InlineFailed string
+	// InlineRejected: expansions that were dropped because the package did not type-check with them
+	InlineRejected []string
+	canonT      map[*types.Named]string
+	canonF       map[*types.Var]string
 }
 
 func loadEnv(cfg Config) []string {
@@ -103,6 +107,7 @@ func Load(repo string, cfg Config) (*Prog, error) {
 	// normalisation: expand calls to helpers the frozen table does not know (inline.go) and analyse the expanded source
 	var overlay map[string][]byte
 	var notes []inlineNote
+	var rej []string
 	for round := 1; round <= 4; round++ {
 		ovDel, ovKeep, ns := planInline(p, overlay, round)
 		if ovDel == nil {
@@ -129,10 +134,17 @@ func Load(repo string, cfg Config) (*Prog, error) {
 			p.InlineFailed = "expanded source did not type-check, helpers are analysed as calls: " + msg
 			break
 		}
+		if os.Getenv("CLOAKCHECK_INLINE_DEBUG") == "all" {
+			for f, b := range used {
+				os.WriteFile("/tmp/inline_debug_"+strings.ReplaceAll(strings.TrimPrefix(f, repo+"/"), "/", "_"), b, 0o644)
+			}
+		}
+		rej = append(rej, p.InlineRejected...)
 		overlay, p = used, p2
 		notes = append(notes, ns...)
 	}
 	p.Inlined = notes
+	p.InlineRejected = append(rej, p.InlineRejected...)
 	curProg = p
 	return p, nil
 }
